@@ -241,11 +241,17 @@ func (v *catalog_[K, V]) GetSize() int {
 }
 
 func (v *catalog_[K, V]) AsArray() []AssociationLike[K, V] {
-	return v.associations_.AsArray()
+	// The associations are copied so that the result is a true snapshot.
+	var associations = v.associations_.AsArray()
+	var class = Association[K, V](v.GetClass().Notation())
+	for index, association := range associations {
+		associations[index] = class.Make(association.GetKey(), association.GetValue())
+	}
+	return associations
 }
 
 func (v *catalog_[K, V]) GetIterator() age.IteratorLike[AssociationLike[K, V]] {
-	return v.associations_.GetIterator()
+	return age.Iterator[AssociationLike[K, V]]().MakeFromArray(v.AsArray())
 }
 
 // Sortable
